@@ -24,7 +24,7 @@ class NewBase(BaseException):
         self.label = label
 
 
-KINDS = ("acm", "scm", "push-async-fn", "push-sync-fn", "callback-sync", "callback-async", "push-acm", "push-scm", "push-async-obj", "push-async-partial", "callback-async-obj")
+KINDS = ("acm", "scm", "push-async-fn", "push-sync-fn", "callback-sync", "callback-async", "push-acm", "push-scm", "push-async-obj", "push-async-partial", "callback-async-obj", "push-fn-returning-awaitable", "callback-kwargs-only")
 BEHS = ("falsy", "truthy", "raise-new", "raise-new-if-exception", "raise-new-BaseException")
 NK, NB = len(KINDS), len(BEHS)
 
@@ -57,7 +57,8 @@ class Entry:
         return 0
 
     def _cb(self, *args, **kw):
-        if args != ("arg",) or kw != {"kw": 1}:
+        want_args = () if self.kind == 12 else ("arg",)
+        if args != want_args or kw != {"kw": 1}:
             self.log.append(("bad-callback-args", self.eid))
         self.log.append(("exit", self.eid, "-"))
         b = self.beh
@@ -128,6 +129,22 @@ class Entry:
 
         return ExitObj()
 
+    def awfn(self):
+        e = self
+
+        class Later:  # an awaitable that is not a coroutine
+            def __init__(self, ev):
+                self.ev = ev
+
+            def __await__(self):
+                return e._exit(self.ev)
+                yield
+
+        def fn(et, ev, tb):
+            return Later(ev)
+
+        return fn
+
     def apartial(self):
         import functools
 
@@ -185,7 +202,11 @@ async def reg_async(stack, e):
         return stack.push(e.aobj())
     if k == 9:
         return stack.push(e.apartial())
-    return stack.callback(e.acbobj(), "arg", kw=1)
+    if k == 10:
+        return stack.callback(e.acbobj(), "arg", kw=1)
+    if k == 11:
+        return stack.push(e.awfn())
+    return stack.callback(e.scb(), kw=1)
 
 
 async def reg_std(stack, e):
@@ -211,7 +232,11 @@ async def reg_std(stack, e):
         return stack.push_async_exit(e.aobj())
     if k == 9:
         return stack.push_async_exit(e.apartial())
-    return stack.push_async_callback(e.acbobj(), "arg", kw=1)
+    if k == 10:
+        return stack.push_async_callback(e.acbobj(), "arg", kw=1)
+    if k == 11:
+        return stack.push_async_exit(e.awfn())
+    return stack.callback(e.scb(), kw=1)
 
 
 class _AsCM:
@@ -236,9 +261,12 @@ class _AsCM:
             return await self.inner.__aexit__(et, ev, tb)
         if k in (1, 7):
             return self.inner.__exit__(et, ev, tb)
-        if k in (2, 3, 8, 9):
+        if k in (2, 3, 8, 9, 11):
             return self.e._exit(ev)
-        self.e._cb("arg", kw=1)
+        if k == 12:
+            self.e._cb(kw=1)
+        else:
+            self.e._cb("arg", kw=1)
         return False
 
 
@@ -479,7 +507,7 @@ def jobs(tier):
 
 LEVEL = "other"
 BOUNDS = {
-    "quick": "stacks of 0..2 entries, each {entered async CM, entered sync CM, pushed async fn, pushed sync fn, sync callback with args, async callback with args, pushed (not entered) async CM, pushed sync CM, pushed callable object returning a coroutine, pushed partial(async def), callback object returning a coroutine} x {falsy, truthy, raise new, raise new only when an exception is in flight, raise a new BaseException}, block normal/raising, one entry whose enter fails; oracles: contextlib.AsyncExitStack and recursively built nested async-with; histories of 4 operations over {register, aclose, pop_all, with-block, with-block raising, aclose popped stack} followed by closing everything",
+    "quick": "stacks of 0..2 entries, each {entered async CM, entered sync CM, pushed async fn, pushed sync fn, sync callback with args, async callback with args, pushed (not entered) async CM, pushed sync CM, pushed callable object returning a coroutine, pushed partial(async def), callback object returning a coroutine, pushed function returning a non-coroutine awaitable, callback with keyword arguments only} x {falsy, truthy, raise new, raise new only when an exception is in flight, raise a new BaseException}, block normal/raising, one entry whose enter fails; oracles: contextlib.AsyncExitStack and recursively built nested async-with; histories of 4 operations over {register, aclose, pop_all, with-block, with-block raising, aclose popped stack} followed by closing everything",
     "thorough": "stacks of 3 entries, histories of 6 operations",
 }
 OUTSIDE = ["__context__/__cause__ chains", "4 entries", "exits that suspend (covered by C17/C18)"]
